@@ -24,6 +24,12 @@ Inductive case :=
 | CNum (rd : Z) (s : bytes) (obs : option fval)
 (* tonumber(s, b) *)
 | CNumB (b : Z) (s : bytes) (obs : option fval)
+(* tonumber(s, b) for any integer b: did it raise (base out of range)? *)
+| CNumBErr (b : Z) (s : bytes) (raised : bool)
+(* tonumber(z, b) with the NUMBER z (an integer that is a float64) as first argument *)
+| CNumBN (z : Z) (b : Z) (obs : option fval)
+(* first token of u ++ rest by parse.Scanner.Scan: Some text if it is a number token without error *)
+| CNumThen (u rest : bytes) (obs : option bytes)
 (* tostring(x) = str; tonumber(str) = back *)
 | CToStr (x : fval) (str : bytes) (back : option fval)
 (* os.date('*t', t) = year month day hour min sec wday yday (isdst false); os.time of it = back *)
@@ -104,6 +110,23 @@ Definition ctx_check (via_lexer : bool) (ls : list ctxlit) (obs : option (list c
     match obs with Some os => ctx_all_ok via_lexer ls os | None => false end
   else match obs with None => true | Some _ => false end.
 
+Definition scan_number_token (src : bytes) : option bytes :=
+  match src with
+  | c :: r =>
+    if is_digit c || ((c =? 46) && is_digit (match r with c2 :: _ => c2 | [] => -1 end)) then
+      match scan_number c r with Some (text, _) => Some text | None => None end
+    else None
+  | [] => None
+  end.
+
+(* baseToNumber with a number argument: base 10 returns it, any other base reads its text *)
+Definition tonumber_of_number (z b : Z) : option fval :=
+  if b =? 10 then Some (round_dec z 0) else tonumber_f round_dec (print_int z) (Some b).
+
+(* the token ends where the numeral ends when what follows cannot continue a numeral *)
+Definition ends_numeral (rest : bytes) : bool :=
+  match rest with c :: _ => negb (is_ident1 c || (c =? 46)) | [] => true end.
+
 Definition check_impl (c : case) : bool :=
   match c with
   | CQuote s q back => beqb (go_lua_quote s) q && obytes_eqb (lex_string q) back
@@ -113,6 +136,9 @@ Definition check_impl (c : case) : bool :=
   | CScan src obs => obytes_eqb (scan_first src) obs
   | CNum rd s obs => ofval_eqb (num_reader rd s) obs
   | CNumB b s obs => ofval_eqb (tonumber_f round_dec s (Some b)) obs
+  | CNumBErr b s raised => Bool.eqb raised (negb (base_ok b))
+  | CNumBN z b obs => ofval_eqb (tonumber_of_number z b) obs
+  | CNumThen u rest obs => obytes_eqb (scan_number_token (u ++ rest)) obs
   | CToStr x str back =>
     (if is_integer x then beqb (lnumber_string (fun _ => []) x) str
      else ofval_eqb (parse_number round_dec str) (Some x))       (* the Sprint oracle, checked *)
@@ -134,10 +160,22 @@ Definition plain_int_text (str : bytes) : bool :=
   | [] => false
   end.
 
+(* well formed except that decimal escapes may exceed 255; such a literal is an error *)
+Definition big_dec (it : item) : bool :=
+  match it with IDec ds => 255 <? dec_value ds 0 | _ => false end.
+Definition wf_item_big (q : Z) (it : item) : bool :=
+  match it with
+  | IDec ds => forallb is_digit_val ds && (len ds =? 3)
+  | _ => wf_item q it
+  end.
+
 Definition check_spec (c : case) : bool :=
   match c with
   | CQuote s q back => obytes_eqb back (Some s)
-  | CShort q its obs => if wf_items q its then obytes_eqb obs (Some (denote_items its)) else true
+  | CShort q its obs =>
+    if wf_items q its then obytes_eqb obs (Some (denote_items its))
+    else if forallb (wf_item_big q) its && existsb big_dec its then obytes_eqb obs None
+    else true
   | CLong lvl body obs =>
     if no_closer (Z.to_nat lvl) body then obytes_eqb obs (Some (long_denotes body)) else true
   | CLit _ _ => true
@@ -151,6 +189,13 @@ Definition check_spec (c : case) : bool :=
       end
     else ofval_eqb obs (parse_number round_dec s)
   | CNumB b s obs => ofval_eqb obs (tonumber_f round_dec s (Some b))
+  | CNumBErr b s raised => Bool.eqb raised (negb ((2 <=? b) && (b <=? 36)))
+  | CNumBN z b obs => ofval_eqb obs (tonumber_of_number z b)
+  | CNumThen u rest obs =>
+    match numeral_kind u with
+    | KNone => true
+    | _ => if ends_numeral rest then obytes_eqb obs (Some u) else true
+    end
   | CToStr x str back =>
     ofval_eqb back (Some x) &&
     match int_of_fval x with
